@@ -84,6 +84,10 @@ def classify(prop, codemod, before, after1, after2):
     hit = _input_classes().get((codemod, hashlib.sha1(before.encode()).hexdigest()[:12]))
     if hit:
         return hit
+    if prop == "C02" and name == "timezone-aware-datetime":
+        import re as _re
+        if _re.search(r"from\s+datetime\s+import\s+[^\n]*\bdatetime\s+as\s+\w+", before):
+            return "kf_timezone_aliased_datetime"
     if prop == "C02" and after1 is not None:
         c = _dropped_binding_class(codemod, before, after1)
         if c:
